@@ -40,6 +40,10 @@ DECLS = {
     # L and Lp: fields that generated code reaches through the class's field list (no struct code), in either order
     "L": "    a = Int(3)\n    b = Data(until_marker=b'\\x05')\n",
     "Lp": "    a = Data(until_marker=b'\\x03')\n    b = Int(3)\n",
+    # P and Pp: widths swapped symmetrically (1,2,2,1 / 2,1,1,2): the generated texts have the same length, the same
+    # characters and differences that cancel in position-weighted sums (what a weak checksum of the text would miss)
+    "P": "    a = Int(1)\n    b = Int(2)\n    c = Int(2)\n    d = Int(1)\n",
+    "Pp": "    a = Int(2)\n    b = Int(1)\n    c = Int(1)\n    d = Int(2)\n",
     "H": "    a = Int(1).describe(DESC)\n    b = Int(1)\n",
     "Hp": "    a = Int(1).describe(DESC)\n    b = Int(1)\n",
 }
